@@ -216,7 +216,13 @@ func (r *Reporter) Finish() int {
 	defer r.mu.Unlock()
 	outDir := filepath.Join(Root, "out", r.ID)
 	os.MkdirAll(outDir, 0755)
-	os.MkdirAll(filepath.Join(Root, "evidence"), 0755)
+	// VERIF_EVIDENCE_DIR: exploration runs (other seeds, scratch copies of the
+	// repository) write their evidence elsewhere; the registered commands never set it.
+	evDir := filepath.Join(Root, "evidence")
+	if d := os.Getenv("VERIF_EVIDENCE_DIR"); d != "" {
+		evDir = d
+	}
+	os.MkdirAll(evDir, 0755)
 
 	var ksigs []string
 	for s := range r.knownN {
@@ -278,7 +284,7 @@ func (r *Reporter) Finish() int {
 		ev["assumptions"] = []string{}
 	}
 	b, _ := json.MarshalIndent(ev, "", " ")
-	os.WriteFile(filepath.Join(Root, "evidence", r.ID+".json"), append(b, '\n'), 0644)
+	os.WriteFile(filepath.Join(evDir, r.ID+".json"), append(b, '\n'), 0644)
 
 	fmt.Printf("%s %s seed=%d: evaluations=%d distinct_nontrivial=%d violations=%d known=%d wall=%.1fs\n",
 		r.ID, r.Tier, r.Seed, r.evals.Load(), len(r.sigs), nviol, len(r.knownN), time.Since(r.start).Seconds())
